@@ -69,6 +69,11 @@ CHECKS = {
          "About 25 public mapper-based functions/classes are applied to every graph of a node-kind-complete, hash-consed corpus (diamonds, ladders up to depth 60 with exponential path count, one node used through operand/shape/index/CSR/send/binding edges, traced calls, distributed nodes, symbolic shapes). Monitors: (1) each cached mapper's per-node method fires once per (mapper instance, node[, extra args]); a logical event budget turns exponential re-traversal into a violation instead of a hang; (2) every node the reflective walk finds is visited; (3) identity transforms return their argument, no transform returns more distinct nodes or structurally equal distinct nodes; (4) a graph with one cloned twin must raise the cache-collision error in CopyMapper and deduplicate must merge it.",
          "Documented conventions are encoded, not judged: no mapper descends into NormalizedSlice bounds, dead-code elimination does not enter zeros_like operands, function bodies are entered by clone_for_callee mappers only, context mappers (einsum no-broadcast rewriter) legitimately revisit per context. Mappers not in the application table are not observed.",
          "DESIGN.md §3 C13"),
+ "C20": ("exploration",
+         "reference-model monitor: return values of every graph analysis compared with sets computed by a dataclass-reflection walk (no shared code with the mappers) and with each other; documented edge conventions encoded in a table; twin-duplicate and randomly tagged/stored variants",
+         "For each corpus graph (every node kind and edge kind, hash-consed; plus one variant with a structurally equal twin, one with random ImplStored tags and one with two random tag types): predecessors of every node (list and set variants, with/without functions) must contain every field child with its multiplicity and nothing but field children and computed-shape components; get_list_of_users/get_nusers must be the converse of pytato's own predecessor relation with multiplicity and contain every field edge; get_users must agree with it on array users and rec_get_user_nodes must be its transitive closure; the topological order must list every array once and after all its children; node/type counts and multiplicities must equal distinct nodes / distinct objects; tag counts must equal the tagged nodes; the materialised set must contain every input, receive, call-bound and stored node (+ outputs when asked) and nothing outside those plus documented by-type members.",
+         "Documented conventions (send payload is not a use; dictionaries are not users; calls are transparent in UsersCollector; analyses stay in the call-site namespace; NormalizedSlice bounds are never traversed; computed-shape components may be reported) are tolerated and counted. Node equality/hash trusted as checked by C04.",
+         "DESIGN.md §3 C20"),
 }
 
 NOT_YET = {
